@@ -1200,7 +1200,22 @@ func c12RandScenario(r *rand.Rand, sh *c12Sheet) c12Built {
 		}
 		return c12RandSeq(r, 1+r.Intn(25))
 	}
-	lf, rf, mid := flank(), flank(), ""
+	// now and then a flank carries a priming site of its own (a primer of some marker, on either strand)
+	dangling := false
+	flankSite := func() string {
+		f := flank()
+		if namp > 0 && r.Intn(8) == 0 {
+			m := sh.Markers[r.Intn(len(sh.Markers))]
+			p, _ := c12PlantPrimer(r, []string{m.Fwd, m.Rev}[r.Intn(2)], 0, 0)
+			if r.Intn(2) == 0 {
+				p = rc(p)
+			}
+			dangling = true
+			return f + p + c12RandSeq(r, 3+r.Intn(10))
+		}
+		return f
+	}
+	lf, rf, mid := flankSite(), flankSite(), ""
 	text := lf
 	for ai := 0; ai < namp; ai++ {
 		mi := r.Intn(len(sh.Markers))
@@ -1325,6 +1340,9 @@ func c12RandScenario(r *rand.Rand, sh *c12Sheet) c12Built {
 	}
 	if namp == 2 {
 		cls = append(cls, "chimera")
+	}
+	if dangling {
+		cls = append(cls, "dangling-site")
 	}
 	if sh.Delim != "" {
 		cls = append(cls, "delimiter")
